@@ -16,7 +16,11 @@ from props.c05 import ref_fit, allclose, fxs, bits, unf_opt, guard, frame_hash, 
 
 REQUIRED = ['numer_order_free', 'cond_const_eq_uncond', 'stoch_iptw_const_eq_uncond', 'stoch_iptw_order_free', 'mc_assign_order_free', 'gf_assign_order_free', 'p_one_zero',
             'gf_p_one_zero', 'tmle_mc_degenerate', 'stoch_iptw_mixture', 'mc_mixture_realised', 'mc_average_mixture',
-            'tmle_eps_zero']
+            'tmle_eps_zero',
+            # ties to the source (Props/C14_Gen, C14_GfStoch): generated definitions = the model
+            'stoch_iptw_fit_generated', 'numer_order_free_generated', 'p_one_zero_generated', 'stoch_iptw_mixture_generated',
+            'gf_stoch_fit_generated', 'gf_stoch_size_generated', 'gf_order_free_generated', 'gf_p_one_zero_generated',
+            'mc_average_mixture_generated']
 RULE = ('categorical data sets (1-3 covariates of arity 2-4, <= 12 strata, positivity by construction; binary / normal '
         'outcomes) with saturated models, and mixed data sets (categorical + continuous predictors) with non-saturated '
         'models; plans: unconditional p on the grid {0, .2, .5, .75, 1}, and 2-4 exclusive exhaustive conditions over the '
